@@ -350,6 +350,7 @@ func (s *sim) closeSide(x int) {
 // finish closes both ends, drains the FIN exchange, and reports goroutines the
 // connections left behind. Returns the names of leaked roles.
 func (s *sim) finish(baseGoroutines int) []string {
+	s.l.ev("TEARDOWN")
 	for x := 0; x < 2; x++ {
 		s.closeSide(x)
 		// let FINs through
